@@ -951,6 +951,11 @@ func (p *queryPlan) projectAndGroupBy() error {
 				aap.Acc = table.NewCountAccumulator()
 			}
 		case lexer.ItemSum:
+			if p.tbl.NumRows() == 0 {
+				// Nothing to aggregate: Reduce returns early on an empty table, any sum accumulator will do.
+				aap.Acc = table.NewSumInt64LiteralAccumulator(0)
+				break
+			}
 			cell := p.tbl.Rows()[0][prj.Binding]
 			if cell.L == nil {
 				return fmt.Errorf("can only sum int64 and float64 literals; found %s instead for binding %q", cell, prj.Binding)
